@@ -1,0 +1,93 @@
+//go:build verif
+// +build verif
+
+// Ghost I/O accessors and the contracts of the data-file codec (C09). The accessors have a
+// built-in meaning for govc (ghost file system, see /verif/govc/ghostio.go) and a native
+// implementation used when a counterexample is replayed.
+
+package store
+
+import (
+	"bufio"
+	"bytes"
+	"io"
+	"os"
+)
+
+var _ = bufio.NewReader
+var _ = io.EOF
+
+// ioFailed: some I/O call of this function call failed for a reason other than end of file
+func ioFailed() bool { return false }
+
+func fileSize(f *os.File) int {
+	st, err := f.Stat()
+	if err != nil {
+		return 0
+	}
+	return int(st.Size())
+}
+func fileByte(f *os.File, i int) byte {
+	var b [1]byte
+	f.ReadAt(b[:], int64(i))
+	return b[0]
+}
+func filePos(f *os.File) int {
+	p, _ := f.Seek(0, io.SeekCurrent)
+	return int(p)
+}
+func sameFile(f, g *os.File) bool { return f.Name() == g.Name() }
+
+// fileValidAt: the positional reader accepts the bytes at offset off of f as a record. Its
+// meaning is given by the contract of readRecordAt (uninterpreted function of the file content).
+func fileValidAt(f *os.File, off int) bool {
+	w, err := readRecordAt(f.Name(), f, uint32(off))
+	if err == nil {
+		w.rec.Payload.Free()
+	}
+	return err == nil
+}
+func readerPos(r *bufio.Reader) int             { return -1 } // ghost only
+func readerOn(r *bufio.Reader, f *os.File) bool { return true }
+func streamLen(w io.Writer) int {
+	if b, ok := w.(*bytes.Buffer); ok {
+		return b.Len()
+	}
+	return -1
+}
+func streamByte(w io.Writer, i int) byte {
+	if b, ok := w.(*bytes.Buffer); ok {
+		return b.Bytes()[i]
+	}
+	return 0
+}
+
+// modifies designators for ghost state
+func ghostIO() bool                    { return true }
+func ghostFail() bool                  { return true }
+func ghostStream(w io.Writer) bool     { return true }
+func ghostReader(r *bufio.Reader) bool { return true }
+func ghostFilePos(f *os.File) bool     { return true }
+
+func iteInt(c bool, a, b int) int {
+	if c {
+		return a
+	}
+	return b
+}
+
+//@ func (wrec *WriteRecord) append
+//@   props C09
+//@   ints math
+//@   requires wrec.rec != nil && wrec.rec.Payload != nil && wbuf != nil && len(wrec.rec.Key) <= 255 && len(wrec.rec.Payload.Body) < 1<<31
+//@   requires !sameArray(wrec.rec.Key, wrec.header[:]) && !sameArray(wrec.rec.Payload.Body, wrec.header[:])
+//@   modifies wrec.header, ghostStream(wbuf), ghostFail()
+//@   ensures result0 == nil ==> streamLen(wbuf) == old(streamLen(wbuf)) + iteInt(dopadding, int(specPadded(uint32(24+len(wrec.rec.Key)+len(wrec.rec.Payload.Body)))), 24+len(wrec.rec.Key)+len(wrec.rec.Payload.Body))
+//@   ensures result0 == nil ==> forall(0, 24, func(i int) bool { return streamByte(wbuf, old(streamLen(wbuf))+i) == wrec.header[i] })
+//@   ensures result0 == nil ==> forall(0, len(wrec.rec.Key), func(i int) bool { return streamByte(wbuf, old(streamLen(wbuf))+24+i) == wrec.rec.Key[i] })
+//@   ensures result0 == nil ==> forall(0, len(wrec.rec.Payload.Body), func(i int) bool { return streamByte(wbuf, old(streamLen(wbuf))+24+len(wrec.rec.Key)+i) == wrec.rec.Payload.Body[i] })
+//@   ensures result0 == nil && dopadding ==> forall(old(streamLen(wbuf))+24+len(wrec.rec.Key)+len(wrec.rec.Payload.Body), streamLen(wbuf), func(i int) bool { return streamByte(wbuf, i) == 0 })
+//@   ensures forall(0, old(streamLen(wbuf)), func(i int) bool { return streamByte(wbuf, i) == old(streamByte(wbuf, i)) })
+//@   ensures le32(wrec.header[:], 4) == wrec.rec.Payload.TS && le32(wrec.header[:], 8) == wrec.rec.Payload.Flag && le32(wrec.header[:], 12) == uint32(wrec.rec.Payload.Ver)
+//@   ensures le32(wrec.header[:], 16) == wrec.ksz && le32(wrec.header[:], 20) == wrec.vsz
+//@   ensures le32(wrec.header[:], 0) == specRecordCRC(wrec.header[4:], wrec.rec.Key, wrec.rec.Payload.Body)
